@@ -300,6 +300,8 @@ var c18Scenarios = [][]string{
 	{"var hits int = 0", "func hit() int {\n\thits += 2\n\treturn hits\n}", "switch hit() {\ncase 2:\n\tprintln(\"two\")\n}", "bonus := 10", "func score() int {\n\treturn hits*100 + bonus\n}", "println(score())", "var late int", "late = score()", "late"},
 	{"xs := []int{3, 1, 2}", "import \"golang.org/x/exp/slices\"", "slices.SortFunc(xs, func(a, b int) bool {\n\treturn a < b\n})", "println(xs[0], xs[1], xs[2])", "slices.SortFunc(xs, func(a, b int) bool {\n\treturn a > b\n})", "println(xs[0], xs[1], xs[2])", "len(xs)"},
 	{"import \"fmt\"", "func println(s string) {\n\tfmt.Print(\"<\" + s + \">\")\n}", "println(\"hi\")", "func emit() {\n\tprintln(\"in\")\n}", "emit()", "func print(s string) int {\n\tfmt.Print(\"[\" + s + \"]\")\n\treturn len(s)\n}", "n := print(\"abc\")", "println(\"bye\")", "n"},
+	{"package main\nimport \"strings\"", "x := strings.Repeat(\"ab\", 3)", "println(strings.Contains(x, \"ba\"), x)", "import str2 \"strings\"", "y := str2.TrimSpace(\" q \") + x", "y"},
+	c18ManyLoops(),
 	{"import \"counter\"", "a := counter.Next()", "b := counter.Next()", "println(a, b, counter.Next(), counter.Seen())", "c := counter.Next() + a", "println(counter.Seen())", "a + b + c"},
 	{"func area(w, h int) int {\n\treturn w * h\n}", "println(area(2, 3))", "func area(w, h, d int) int {\n\treturn w * h * d\n}", "println(area(2, 3, 4))", "func total(xs ...int) int {\n\treturn len(xs)\n}", "println(total(), total(1, 2))", "area(1, 1, 1)"},
 }
@@ -545,4 +547,21 @@ func c18Diff(got, want c18Obs) string {
 		}
 	}
 	return "observations differ"
+}
+
+// c18ManyLoops: five statements, each a block of nine range loops with their own key and value variables: evaluated as a
+// whole the program has far more than a hundred block-scoped variables, fed statement by statement each call has few
+func c18ManyLoops() []string {
+	items := []string{"xs := []int{1, 2, 3}\ntotal := 0"}
+	for b := 0; b < 5; b++ {
+		var sb strings.Builder
+		sb.WriteString("if true {\n")
+		for k := 0; k < 9; k++ {
+			fmt.Fprintf(&sb, "\tfor i%d, v%d := range xs {\n\t\tw%d := i%d + v%d\n\t\ttotal += w%d\n\t}\n", k, k, k, k, k, k)
+		}
+		sb.WriteString("}")
+		items = append(items, sb.String())
+	}
+	items = append(items, "println(total)", "total")
+	return items
 }
